@@ -4,6 +4,7 @@ go 1.26.8
 
 require (
 	github.com/avos-io/goat v0.0.0
+	github.com/coder/websocket v1.8.12
 	github.com/rs/zerolog v1.33.0
 	google.golang.org/genproto/googleapis/rpc v0.0.0-20240827150818-7e3bb234dfed
 	google.golang.org/grpc v1.66.0
@@ -11,7 +12,6 @@ require (
 )
 
 require (
-	github.com/coder/websocket v1.8.12 // indirect
 	github.com/jonboulle/clockwork v0.4.0 // indirect
 	github.com/mattn/go-colorable v0.1.13 // indirect
 	github.com/mattn/go-isatty v0.0.20 // indirect
